@@ -5,6 +5,7 @@ package c20
 import (
 	"bytes"
 	"context"
+	"encoding/base64"
 	"encoding/json"
 	"errors"
 	"fmt"
@@ -64,6 +65,8 @@ var kinds = []kind{
 	{name: "binptr", typ: reflect.TypeOf(&Bin{}), supported: true, decoder: true},
 	{name: "jsonstruct", typ: reflect.TypeOf(JS{}), tag: ",json", supported: true, decoder: true},
 	{name: "jsonint", typ: reflect.TypeOf(0), tag: ",json", supported: true, decoder: true},
+	{name: "jsonstring", typ: reflect.TypeOf(""), tag: ",json", supported: true, decoder: true},
+	{name: "jsonbytes", typ: reflect.TypeOf([]byte(nil)), tag: ",json", supported: true, decoder: true},
 	{name: "untagged-string", typ: reflect.TypeOf(""), tag: "-", supported: true},
 	{name: "untagged-int", typ: reflect.TypeOf(0), tag: "-", supported: true},
 	{name: "embedded", typ: reflect.TypeOf(Emb{}), tag: "-", supported: true, embedded: true},
@@ -117,6 +120,10 @@ func valueFor(k kind, mode string, salt int) []byte {
 		return []byte(fmt.Sprintf(`{"x":"val%d","n":%d}`, salt, salt))
 	case "jsonint":
 		return []byte(fmt.Sprint(40 + salt))
+	case "jsonstring":
+		return []byte(fmt.Sprintf(`"text \"%d\"\n"`, salt))
+	case "jsonbytes":
+		return []byte(`"` + base64.StdEncoding.EncodeToString([]byte(fmt.Sprintf("raw-%d-\x00", salt))) + `"`)
 	}
 	return []byte(fmt.Sprintf("value-%d-\x00\xff", salt))
 }
@@ -417,6 +424,16 @@ func runShape(s shape, via string) (msg, kind string, nontrivial bool) {
 			if json.Unmarshal(v, &j) != nil {
 				failing[i] = true
 			}
+		case k.name == "jsonstring" && json.Valid(v):
+			var x string
+			if json.Unmarshal(v, &x) != nil {
+				failing[i] = true
+			}
+		case k.name == "jsonbytes" && json.Valid(v):
+			var x []byte
+			if json.Unmarshal(v, &x) != nil {
+				failing[i] = true
+			}
 		}
 	}
 	if len(failing) > 0 && err == nil {
@@ -498,6 +515,18 @@ func runShape(s shape, via string) (msg, kind string, nontrivial bool) {
 			json.Unmarshal(v, &want)
 			if int(f.Int()) != want {
 				return fmt.Sprintf("field %d (json int) = %d, want %d", i, f.Int(), want), "field-value", true
+			}
+		case "jsonstring":
+			var want string
+			json.Unmarshal(v, &want)
+			if f.String() != want {
+				return fmt.Sprintf("field %d (json string) = %q, want the decoded JSON string %q", i, f.String(), want), "field-value", true
+			}
+		case "jsonbytes":
+			var want []byte
+			json.Unmarshal(v, &want)
+			if !bytes.Equal(f.Bytes(), want) {
+				return fmt.Sprintf("field %d (json []byte) = %q, want the decoded JSON value %q", i, f.Bytes(), want), "field-value", true
 			}
 		case "untagged-string":
 			if f.String() != "sentinel" {
